@@ -118,6 +118,7 @@ fn main() {
             "pg11" => pg::run_c11(tier, seed, &mut o),
             "pgm" => pgm::run(tier, seed, &mut o),
             "parse" => parse::run(tier, seed, &mut o),
+            "pg09" => pgm::run_c09(tier, seed, &mut o),
             "tab03" => tabaut::run("c03", tier, seed, &mut o),
             "tab06" => tabaut::run("c06", tier, seed, &mut o),
             "tab09" => tabaut::run("c09", tier, seed, &mut o),
